@@ -5,7 +5,7 @@ From CMinx Require Import Base.Str Extract.Tree
      Model.Lexer Model.Parser Model.Writer Model.DocTypes Model.Aggregator Model.Pipeline
      Model.Path Model.Naming Model.Walk Model.Config Gen.ConfigData
      Model.CMakeLang Gen.CMinxCMake
-     Spec.Projections.
+     Spec.Projections Spec.EntrySpec.
 Import ListNotations.
 
 Definition e_token (t : token) : tree := L [e_nat (kind_id (fst t)); e_str (snd t)].
@@ -315,5 +315,25 @@ Definition dispatch_base (fid : nat) (a : list tree) : option tree :=
                                (d_list d_str (d_arg 1 a)) in
           Some (e_list (fun l => L [e_list e_str (fst l); e_bool (snd l)]) launches)
   | 16 => Some (e_list e_str (split_list (d_str (d_arg 0 a))))
+  | 20 => Some (e_opt (e_pair e_str (e_list e_str)) (add_test_view (d_list d_str (d_arg 0 a))))
+  | 21 => Some (e_opt (e_pair e_str e_bool) (ct_view (d_list d_str (d_arg 0 a))))
+  | 22 => (* per command of a source text: name and arguments as written *)
+          Some (match lex (d_str (d_arg 0 a)) with
+                | LexErr _ => L []
+                | LexOk ts =>
+                    match parse ts with
+                    | None => L []
+                    | Some f =>
+                        L (flat_map (fun e => match e with
+                                              | EDocCmd _ c | ECmd c =>
+                                                  [L [e_str (c_name c); e_list e_str (generic_args c)]]
+                                              | EDangling _ => []
+                                              end) (f_elems f))
+                    end
+                end)
+  | 23 => Some (L [e_opt (fun v => L [e_str (fst (fst v)); e_vartype (snd (fst v)); e_opt e_str (snd v)])
+                         (set_view (d_list d_str (d_arg 0 a)));
+                   e_opt (fun v => L [e_str (fst (fst v)); e_str (snd (fst v)); e_str (snd v)])
+                         (option_view (d_list d_str (d_arg 0 a)))])
   | _ => None
   end.
